@@ -72,6 +72,17 @@ def gen(rng, tier):
     for _ in range(400 * n):
         vs = [common.rand_any(rng, 70) for _ in range(3)]
         yield dict(family="random", vars=vs, ops=OPS3)
+    for _ in range(150 * n):
+        c1, c2 = common.rand_coeff(rng, rng.choice([1, 5, 25, 45])), common.rand_coeff(rng, rng.choice([1, 5, 25, 45]))
+        if rng.random() < 0.4:
+            c2 = c1 + rng.choice([0, 1, -1]) if c1 > 1 else c1
+        e = rng.randint(-5, 5)
+        neg = rng.randint(0, 1)
+        hp = lambda: rng.choice([2**32 - 1, 2**32 - 2, 2**32 - 17, 2**32 - 18, 2**32 - 19, 2**31, 2**31 + 1])
+        x = fin(max(c1, 1), e + ndigits(max(c2, 1)) - ndigits(max(c1, 1)), neg=neg, prec=hp())
+        y = fin(max(c2, 1), e, neg=neg, prec=rng.choice([hp(), None, 60]))
+        w = fin(max(c1, 1), e, neg=rng.randint(0, 1), prec=hp())
+        yield dict(family="extreme-precision", vars=[x, y, w], ops=OPS3)
     # same leading word(s), lower words at the extremes of the word range (differences >= 2^63 between unsigned words)
     EXT = [0, 1, 2**63 - 1, 2**63, 2**63 + 1, B - 1, B - 2, 5 * 10**18, 9223372036854775808 - 10**18, 10**18]
     for _ in range(250 * n):
